@@ -33,16 +33,18 @@ def hashable(x):
     return tuple(x) if isinstance(x, list) else x
 
 
-def make(shape, layout):
+def make(shape, layout, zero=False):
     from biom import Table
     N, Mm = shape
     o = ['o%d' % (i + 1) for i in range(N)]
     s = ['s%d' % (j + 1) for j in range(Mm)]
     D = [[((1 + i * Mm + j) * 0.5 if (i + 2 * j) % 4 != 3 else 0.0) for j in range(Mm)] for i in range(N)]
     D[0][0] = 0.0
-    if N > 1 and Mm > 1:
-        # one all-zero vector on each axis when the shape allows, to exercise remove_empty
-        pass
+    if zero:
+        # an all-zero observation and an all-zero sample (a label carried only by empty vectors)
+        D[N - 1] = [0.0] * Mm
+        for i in range(N):
+            D[i][Mm - 1] = 0.0
     omd = [{'k': 'm' + x, 'slot': i} for i, x in enumerate(o)]
     smd = [{'k': 'm' + x, 'slot': j} for j, x in enumerate(s)]
     cp = (lambda z: [dict(e) for e in z])
@@ -65,6 +67,9 @@ def cases(tier, seed):
                 for lab in itertools.product(range(len(LABELS)), repeat=n):
                     out.append({'kind': 'label', 'shape': list(sh), 'layout': lay, 'axis': axis,
                                 'lab': list(lab)})
+                    if lay == 'csr' and sh == (3, 3):
+                        out.append({'kind': 'label', 'shape': list(sh), 'layout': lay, 'axis': axis,
+                                    'lab': list(lab), 'zero': True})
     otm_shapes = [(2, 3), (3, 2)] + ([(3, 3)] if tier == 'thorough' else [])
     for sh in otm_shapes:
         for lay in ('csr', 'unsorted'):
@@ -86,7 +91,7 @@ def check(case, acc, tmp):
     if case['kind'] == 'otm':
         return check_otm(case, acc)
     from biom.exception import TableException
-    t0, m0 = make(case['shape'], case['layout'])
+    t0, m0 = make(case['shape'], case['layout'], case.get('zero', False))
     axis = case['axis']
     ids = m0.ids(axis)
     labs = [LABELS[k] for k in case['lab']]
@@ -114,7 +119,7 @@ def check(case, acc, tmp):
     for fname, f in forms.items():
         for rem in (False, True):
             for ign in (False, True):
-                t, _ = make(case['shape'], case['layout'])
+                t, _ = make(case['shape'], case['layout'], case.get('zero', False))
                 acc.trans += 1
                 kw = dict(form=fname, remove_empty=rem, ignore_none=ign)
                 try:
@@ -158,7 +163,7 @@ def check(case, acc, tmp):
     # ------------------------------------------------------------------ collapse (one-to-one)
     def aslabel(x):
         if x is None:
-            return 'N'
+            return None          # a None label is a label like any other for collapse (its group is named None)
         if isinstance(x, list):
             return 'A|x'
         return {0: 'zero', '': 'empty'}.get(x, x) if not isinstance(x, str) or x == '' else x
@@ -168,7 +173,7 @@ def check(case, acc, tmp):
         for norm in (False, True):
             for mgs in (1, 2):
                 for inc in (True, False):
-                    t, _ = make(case['shape'], case['layout'])
+                    t, _ = make(case['shape'], case['layout'], case.get('zero', False))
                     kw = dict(form=fname, norm=norm, min_group_size=mgs, include_collapsed_metadata=inc)
                     acc.trans += 1
                     groups = m0.groups(axis, lambda i, md: L2[i])
@@ -282,5 +287,5 @@ def run(run):
 
 
 def replay(case):
-    base = {k: v for k, v in case.items() if k in ('kind', 'shape', 'layout', 'axis', 'lab', 'paths')}
+    base = {k: v for k, v in case.items() if k in ('kind', 'shape', 'layout', 'axis', 'lab', 'paths', 'zero')}
     return P.replay_case(check, base)
